@@ -16,8 +16,8 @@ func init() {
 		Decided: "D1 no exported constructor, method or class function of the collection package lets the storage of a Go slice or map argument flow into a heap object, a closure, a channel or its result; " +
 			"D2 every Go slice/map and every collection (anything offering AsArray) returned by an exported method or class function is allocated in that call (or by a callee whose result is), including the storage fields of newly built objects, and does not alias a parameter's or the receiver's storage; " +
 			"D3 every bulk method touches its operand sequence only through the snapshot accessors GetSize/IsEmpty/AsArray/GetIterator (directly or through a callee with the same discipline), so passing the receiver itself behaves like passing a copy.",
-		NotDecided: "sharing of pointers stored as element values (associations returned by a catalog's array view are the catalog's own objects: the property speaks of Go arrays and maps, and so does the rule); that the copies have the right content.",
-		Run:        runC18,
+		NotDecided:  "sharing of pointers stored as element values (associations returned by a catalog's array view are the catalog's own objects: the property speaks of Go arrays and maps, and so does the rule); that the copies have the right content.",
+		Run:         runC18,
 		Assumptions: []string{"standard-library callees (fmt, reflect, strconv, sort, copy/append builtins) do not retain their slice arguments"},
 	})
 }
@@ -94,6 +94,9 @@ func runC18(c *Ctx, r *Rec) {
 						bad = "the result shares storage with the argument " + sig.Params().At(pi-1).Name()
 					}
 				}
+			}
+			if bad == "" {
+				bad = resultSharesWithReceiver(fa, sf)
 			}
 			r.check(bad == "", "D2-result-fresh", construct, c.pos(fd.Pos()), "allocated in this call (or by a callee's fresh result); no storage of the receiver or of an argument inside", bad)
 		}
